@@ -194,7 +194,7 @@ def generate(rng, n, tier="quick"):
         case = session({}, [], {"api": "render_template", "src": src}, {"v": vv})
         case["id"] = "%s-thm%04d" % (ID, k)
         out.append((case, {"mode": "thm", "oracle": ["must", exp], "shape": [vn, has_else, L, R]}))
-    # the family of the Lean theorem C06.if_keeps_the_current_context:  L ++ {{#if v}}{{x}}{{/if}} ++ R  – the path `x` inside the
+    # the family of the Lean theorems C06.if_keeps_the_current_context / unless_keeps_the_current_context:  L ++ {{#if v}}{{x}}{{/if}} ++ R  – the path `x` inside the
     # block is the field `x` of the scope the block stands in, whatever `v` holds (objects with an `x` of their own included);
     # closed form  L ++ (escape(text of data.x) if data.v is truthy) ++ R, for the three escape functions
     from .C03 import thm_left as _tl, thm_right as _tr
@@ -206,8 +206,10 @@ def generate(rng, n, tier="quick"):
         esc = r.pick(["none", "html", "mark"])
         from .common import escape_of
         t = ref.truthy(vv, False)
-        exp = L + (escape_of(esc)(shown) if t else "") + R
-        case = session({"escape": esc}, [], {"api": "render_template", "src": L + "{{#if v}}{{x}}{{/if}}" + R}, {"v": vv, "x": xv})
+        # (… and C06.unless_keeps_the_current_context: the same with the condition negated)
+        neg = r.chance(0.4)
+        exp = L + (escape_of(esc)(shown) if (t != neg) else "") + R
+        case = session({"escape": esc}, [], {"api": "render_template", "src": L + ("{{#unless v}}{{x}}{{/unless}}" if neg else "{{#if v}}{{x}}{{/if}}") + R}, {"v": vv, "x": xv})
         case["id"] = "%s-thmctx%04d" % (ID, k)
         out.append((case, {"mode": "thm", "oracle": ["must", exp], "shape": ["ctx", str(type(vv)), L, R]}))
     # a conditional in the BODY OF A PARTIAL BLOCK: a decorator (an inline partial definition) in a branch the condition does not select
